@@ -346,8 +346,8 @@ Qed.
 
 Lemma delete_data_inv s n off cnt : TreeInv s -> TreeInv (fst (delete_data s n off cnt)).
 Proof.
-  intros T. unfold delete_data. destruct (two64 <=? off + cnt); [exact T|].
-  destruct (len (data_of s n) <? off + cnt); cbn [fst]; [exact T | apply set_str_inv; exact T].
+  intros T. unfold delete_data.
+  destruct (len (data_of s n) <? off); cbn [fst]; [exact T | apply set_str_inv; exact T].
 Qed.
 
 Lemma replace_data_inv s n k off cnt d : TreeInv s -> TreeInv (fst (replace_data s n k off cnt d)).
@@ -799,7 +799,7 @@ Section Generic.
         (apply factory_P; try reflexivity; [exact T | discriminate]).
     - (* CreateEntityReference *)
       apply on_document_P; [exact Hw|]. intros s T. destruct (n_ref name); [|exact T].
-      destruct (entity_known s (n_str name)); [|exact T].
+      destruct (entity_declared s (n_str name)); [|exact T].
       apply factory_P; try reflexivity; [exact T | discriminate].
     - (* CreateDocumentFragment *)
       apply on_document_P; [exact Hw|]. intros s T. apply factory_P; try reflexivity; [exact T | discriminate].
